@@ -54,7 +54,7 @@ def bases(tier):
             for i, d in enumerate(dims):
                 kk, ll = (SINGLE if i in ss else AXDEF)[d]
                 kinds.append(kk); labels.append(ll)
-            out.append(D.spec(dims, labels, kinds, vk="f" if k % 2 == 0 else "i", base=4, var=D.VARIANTS[k % len(D.VARIANTS)] if nd else "fresh",
+            out.append(D.spec(dims, labels, kinds, vk=["f", "i", "f4", "i4"][k % 4], base=4, var=D.VARIANTS[k % len(D.VARIANTS)] if nd else "fresh",
                               attrs={"units": "m", "tags": ["a", 1]}))
             k += 1
     return out
